@@ -73,6 +73,20 @@ def fill_sweep():
     return cases
 
 
+def value_boundaries():
+    """Attribute values whose sizes sit at the boundaries of one and two byte fields and of the 64 KiB heap block: written alone,
+    after small attributes (compact), into dense storage, and overwritten by a small value and back."""
+    cases = []
+    big = ["s254", "s255", "s256", "s257", "s4000", "s32767", "s32768", "s65000", "s65535", "s65536", "ai63", "ai64", "ai8191", "ai8192", "ai16383", "ai16384", "ad8192"]
+    for k, v in enumerate(big):
+        for obj in ("dataset", "group"):
+            for pre in (0, 9):
+                cases.append({"cfg": {"obj": obj, "sb": [2, 0, 3][k % 3], "pre": pre, "style": 0},
+                              "ops": [{"op": "put", "n": "a", "v": v}, {"op": "put", "n": "b", "v": "i32"}, {"op": "put", "n": "a", "v": "i8"},
+                                      {"op": "put", "n": "a", "v": v}, {"op": "del", "n": "b", "v": ""}]})
+    return cases
+
+
 def bulk_histories(heavy=True):
     """Objects whose attribute index fills most of one B-tree leaf (capacity 371 records at the 4 KiB node size), then a few
     deletions that leave the leaf more than half full, then further insertions: the occupancy at which deferred (lazy)
@@ -118,7 +132,7 @@ def run(ctx):
     cases += [json.loads(c) for c in gen2]
     ngen = len(cases)
     # 3. long random histories beyond the bound
-    cases += random_histories(ctx, 400 if thorough else 40, 300) + bulk_histories() + same_bytes_histories() + fill_sweep()
+    cases += random_histories(ctx, 400 if thorough else 40, 300) + bulk_histories() + same_bytes_histories() + fill_sweep() + value_boundaries()
     path = ctx.write_cases(cases)
     # 4. replay against the real library
     trace, dout = ctx.drive("c02", path)
